@@ -69,7 +69,9 @@ CHECKS = {
              "strict Ok implies permissive Ok with the same layout, two-run record). Bad jumps are classified by the "
              "specification from the code bytes and operand, not by the tool's error variant.",
         note="Both modes x every error source are enumerated by the mirror for small programs and sampled by generated "
-             "programs (9 error families incl. overflow through each pushing opcode class).",
+             "programs (9 error families incl. overflow through each pushing opcode class). The operand stack is specified on "
+             "its own (Stack.tla): StackMC checks all histories of <= 6 calls over capacity 3, and random call histories on the "
+             "real Stack near both edges (empty, 1024) are validated by StackTrace.tla (Inv_C17_Demand/stack-model).",
         technique="TLA+ scheduler model; TLC model checking; replay; TLC trace validation",
         ref="DESIGN.md §4 C17"),
     "C13": dict(
@@ -174,7 +176,9 @@ CHECKS = {
              "succeeds; checked by LayoutTrace.tla on programs with keys of every magnitude (small, >= 2^64, >= 2^128, "
              "2^256-1, EIP-1967) read-only / write-only / mixed, with values up to and just beyond the size limit, behind forks and "
              "before errors, and on all other corpora.",
-        note="Indices are compared as full 64-digit hex words.",
+        note="Indices are compared as full 64-digit hex words. The storage of a path is also specified on its own (Storage.tla): "
+             "random call histories on the real Storage are validated by StorageTrace.tla; a read of a never-written key that the "
+             "storage does not remember is Inv_C06_NoMissed/storage-model.",
         technique="TLA+ monitor specification; TLC trace validation",
         ref="DESIGN.md §4 C06"),
     "C11": dict(
@@ -246,7 +250,8 @@ CHECKS = {
              "BYTE with an index >= 2^253, programs that address one slot through two key expressions); a disagreement is excused only "
              "when every disagreeing item is computed from a node built at an instruction that ran into one of them (per-node taint), "
              "and only for the invariants named in the signature.",
-        technique="TLA+ concrete EVM as execution checker; per-path translation validation of the symbolic state by TLC trace validation",
+        technique="TLA+ concrete EVM as execution checker; per-path translation validation of the symbolic state by TLC trace "
+                  "validation; TLA+ component models of the operand stack and the storage validated against recorded call histories",
         ref="DESIGN.md §4 C07"),
     "C01": dict(
         category="exploration",
